@@ -43,6 +43,7 @@ type c16Case struct {
 	CfgPad     int    `json:"cfgpad"`     // bytes of comment lines before the first section of the configuration file
 	NoDBFalse  bool   `json:"nodbfalse"`  // --no-database=false is given: must behave as if the switch were absent
 	Dollar     bool   `json:"dollar"`     // the file names contain $HOME / ${USER}: they are names, not references
+	CfgStyle   int    `json:"cfgstyle,omitempty"` // layout of the configuration file: 0 plain, 1 lower case with blanks, 2 CRLF, 3 quoted values, 4 comments and indentation
 	DepthMul   int    `json:"depthmul,omitempty"` // >1: the four distinguishable depth values are 1..4 times this factor (depths far above the default)
 }
 
@@ -150,22 +151,54 @@ func checkC16(c c16Case, ctx *vCtx) *vFailure {
 	for cfg.Len() < c.CfgPad {
 		cfg.WriteString("; hranoprovod configuration - this line is a comment and only makes the file longer ........\n")
 	}
-	cfg.WriteString("[Global]\n")
+	// the same entries in the layouts an INI file may have: plain, lower-case names with blanks around "=", CRLF line
+	// ends, quoted values, comment lines and trailing comments with indentation
+	eol := "\n"
+	if c.CfgStyle == 2 {
+		eol = "\r\n"
+	}
+	section := func(name string) {
+		switch c.CfgStyle {
+		case 1:
+			cfg.WriteString("[" + strings.ToLower(name) + "]" + eol)
+		case 4:
+			cfg.WriteString("# settings of " + name + eol + "[" + name + "] ; section" + eol + eol)
+		default:
+			cfg.WriteString("[" + name + "]" + eol)
+		}
+	}
+	kv := func(key, val string) {
+		switch c.CfgStyle {
+		case 1:
+			cfg.WriteString(strings.ToLower(key) + " = " + val + eol)
+		case 3:
+			cfg.WriteString(key + "=\"" + val + "\"" + eol)
+		case 4:
+			cfg.WriteString("  " + key + " = " + val + " ; as wanted" + eol + "; " + key + "=/nowhere" + eol)
+		default:
+			cfg.WriteString(key + "=" + val + eol)
+		}
+	}
+	if c.CfgStyle != 0 {
+		ctx.Labelf("config-style=%d", c.CfgStyle)
+	}
+	section("Global")
 	if c.Book.Cfg != 0 {
-		fmt.Fprintf(&cfg, "DbFileName=%s\n", bookPath(c.Book.Cfg))
+		kv("DbFileName", bookPath(c.Book.Cfg))
 	}
 	if c.Log.Cfg != 0 {
-		fmt.Fprintf(&cfg, "LogFileName=%s\n", logPath(c.Log.Cfg))
+		kv("LogFileName", logPath(c.Log.Cfg))
 	}
 	if c.Fmt.Cfg != 0 {
-		fmt.Fprintf(&cfg, "DateFormat=%s\n", c16Formats[c.Fmt.Cfg])
+		kv("DateFormat", c16Formats[c.Fmt.Cfg])
 	}
 	if c.Today.Cfg != 0 {
 		y, m, d := vCivil(60 + c.Today.Cfg)
-		fmt.Fprintf(&cfg, "Now=%04d-%02d-%02dT00:00:00Z\n", y, m, d)
+		kv("Now", fmt.Sprintf("%04d-%02d-%02dT00:00:00Z", y, m, d))
 	}
 	if c.Depth.Cfg != 0 {
-		fmt.Fprintf(&cfg, "[Resolver]\nMaxDepth=%d\n", depthVal(c.Depth.Cfg))
+		section("Resolver")
+		kv("MaxDepth", fmt.Sprint(depthVal(c.Depth.Cfg)))
 	}
 	cfgPath := filepath.Join(root, "my.conf")
 	if c.Channel == "default" {
@@ -270,7 +303,7 @@ func checkC16(c c16Case, ctx *vCtx) *vFailure {
 		case <-time.After(30 * time.Second):
 			_ = cmd.Process.Kill()
 			<-done
-			vFault("real binary timed out")
+			vHang("the real binary did not terminate within its time limit")
 		}
 		return c16Run{}
 	}
@@ -487,6 +520,9 @@ func genC16(t *rapid.T) c16Case {
 	if c.Channel != "none" && c.Channel != "default" {
 		c.CfgMissing = rapid.IntRange(0, 9).Draw(t, "missing") == 0
 	}
+	if rapid.Bool().Draw(t, "cfgstyled") {
+		c.CfgStyle = rapid.IntRange(1, 4).Draw(t, "cfgstyle")
+	}
 	if rapid.IntRange(0, 2).Draw(t, "depthbig") == 0 {
 		c.DepthMul = rapid.IntRange(2, 130).Draw(t, "depthmul")
 	}
@@ -578,6 +614,13 @@ func c16EnumSpace() []c16Case {
 		out = append(out, c16Case{Channel: ch, DecoyFood: true, Dollar: true, Book: c16Src{Flag: 1, Cfg: 3}, Log: c16Src{Env: 4, Cfg: 2}})
 		out = append(out, c16Case{Channel: ch, DecoyFood: true, Depth: c16Src{Flag: 6, Cfg: 3}})
 		out = append(out, c16Case{Channel: ch, DecoyFood: true, Depth: c16Src{Env: 6, Cfg: 3}})
+	}
+	// every layout of the configuration file, all five settings from the file
+	for _, ch := range channels {
+		for style := 1; style <= 4; style++ {
+			out = append(out, c16Case{Channel: ch, DecoyFood: true, CfgStyle: style, Book: c16Src{Cfg: 3}, Log: c16Src{Cfg: 2}, Fmt: c16Src{Cfg: 2}, Depth: c16Src{Cfg: 2}, Today: c16Src{Cfg: 1}})
+			out = append(out, c16Case{Channel: ch, DecoyFood: true, CfgStyle: style, Dollar: true, Book: c16Src{Cfg: 1, Env: 2}, Log: c16Src{Cfg: 4}, Fmt: c16Src{Cfg: 4, Flag: 1}, Depth: c16Src{Cfg: 4}})
+		}
 	}
 	// depths far above the default, from every source
 	for _, mul := range []int{13, 40, 101, 150, 300} {
